@@ -232,12 +232,17 @@ def run_impl(ctx, case):
         out0 = emap(a0).atoms_positions.copy()
         # history: the map is also used on an unrelated conformation of the species before the call
         # under test (what a system extrapolation does for every molecule)
-        other = ref.copy()
-        other.atoms_positions = other.atoms_positions[::-1] * 1.37 + np.array([1.7, -0.3, 0.9])
-        try:
-            emap(other)
-        except Exception:   # noqa: BLE001  (a degenerate scrambled conformation is not the case under test)
-            pass
+        # — or not: a shortcut keyed on "same object as last time" is only visible when NO other molecule is
+        # mapped in between (seed C03-1), one keyed on "is the construction object" only when one is (C01-2)
+        hist = case.get("hist") or ("other-between" if case.get("seed", 0) % 2 == 0 else "none-between")
+        ctx.count("hist:" + hist)
+        if hist == "other-between":
+            other = ref.copy()
+            other.atoms_positions = other.atoms_positions[::-1] * 1.37 + np.array([1.7, -0.3, 0.9])
+            try:
+                emap(other)
+            except Exception:   # noqa: BLE001  (a degenerate scrambled conformation is not the case under test)
+                pass
         n0 = len(rec.draws)
         if ident == "construction-object":
             # the very object the map was built from, moved/deformed IN PLACE after construction and after
